@@ -11,7 +11,7 @@ from .hirq import peel, callee
 
 PASS_THROUGH_METHODS = {"clone", "into", "min", "max", "unwrap_or", "unwrap_or_default", "to_owned", "borrow", "as_ref",
                         "saturating_sub", "saturating_add", "checked_sub", "checked_add", "wrapping_add", "wrapping_sub",
-                        "try_into", "unwrap", "expect", "ok", "ok_or", "cloned", "copied"}
+                        "try_into", "unwrap", "expect", "ok", "ok_or", "cloned", "copied", "iter", "iter_mut", "enumerate", "rev", "into_iter"}
 
 
 class Body:
@@ -21,6 +21,16 @@ class Body:
         self._index(fn)
 
     def _bind_pat(self, pat, src):
+        # position-sensitive for tuple patterns over tuple expressions
+        if pat.get("k") == "Tuple" and isinstance(src, dict) and src.get("k") == "Destructure":
+            of = peel(src["of"])
+            if of.get("k") == "Tup" and len(of["es"]) == len(pat["pats"]) and pat.get("dd") is None:
+                for q, e in zip(pat["pats"], of["es"]):
+                    if q.get("k") == "Binding" and not q.get("sub"):
+                        self.defs.setdefault(q["lid"], []).append(e)
+                    else:
+                        self._bind_pat(q, {"k": "Destructure", "of": e, "pat": q})
+                return
         for n in walk(pat):
             if n.get("k") == "Binding":
                 self.defs.setdefault(n["lid"], []).append(src)
